@@ -594,6 +594,7 @@ fn main() {
     let out = arg_or("out", "options.ndjson");
     let maxlen = arg_u64("maxlen", 4) as usize;
     let nrandom = arg_u64("random", 2000);
+    let quick = flag("quick");
     let sections = arg_or("sections", "corpus,exh,parse,random,bulk,env");
     let has = |s: &str| sections.split(',').any(|x| x == s);
     // no inherited MMTK_* variable may influence read_env_var_settings
@@ -640,7 +641,10 @@ fn main() {
     }
     if has("exh") || has("parse") {
         for (name, ty, prefix, alpha, red, pred) in EXH {
-            let l = maxlen.saturating_sub(*red);
+            // quick tier: the two contexts whose grammar is a sub-grammar of a neighbour context
+            // (Fixed size = one Dynamic bound, Bounded = two Fixed values) are one symbol shorter
+            let lite = quick && (*prefix == "FixedHeapSize:" || *prefix == "Bounded:");
+            let l = maxlen.saturating_sub(*red + lite as usize);
             let pl = maxlen.saturating_sub(*pred);
             let mut strs: Vec<(usize, String)> = vec![];
             all_strings(alpha, l.max(pl), &mut |w| strs.push((w.chars().count(), format!("{}{}", prefix, w))));
